@@ -29,6 +29,11 @@ from .gaussian_process_train import (
 from .optimize_result import OptimizeResult
 from .options import Options
 
+# Verification probe (add-only hook): set from outside by the verification
+# harness and consulted only when the environment variable PYBADS_VERIF=1.
+# pybads itself never sets it.
+_VERIF_PROBE = None
+
 
 class BADS:
     """
@@ -1420,6 +1425,12 @@ class BADS:
                     # Iteration corresponds to the number of polling iterations
                     poll_iteration += 1
                     self.optim_state["iter"] = poll_iteration
+
+            if (
+                _VERIF_PROBE is not None
+                and os.environ.get("PYBADS_VERIF") == "1"
+            ):
+                _VERIF_PROBE("loop_end", locals())
 
             loop_iter += 1
 
